@@ -1,7 +1,9 @@
 package main
 
 import (
+	"bytes"
 	"errors"
+	"io"
 	"math"
 	"math/rand"
 	"strings"
@@ -80,6 +82,7 @@ func histVec(r *rand.Rand, dim int, style int) []float32 {
 }
 
 type vecHistOpts struct {
+	serialize  bool // insert WriteTo / reload-into-fresh-index ops (C07)
 	nops       int
 	allowReuse bool // re-add ids after removal (C06)
 	trainFirst bool
@@ -163,8 +166,41 @@ func runVecHistory(r *rand.Rand, p vecParams, o vecHistOpts, t *Trace) *Case {
 		emitTrain(o.ntrain)
 		emitDump()
 	}
+	emptyBM := emptyBitmapBytes()
 	for step := 0; step < o.nops; step++ {
 		if step == o.nops-1 || r.Intn(7) == 0 {
+			emitDump()
+		}
+		if o.serialize && (step == o.nops/2 || r.Intn(12) == 0) {
+			var buf bytes.Buffer
+			n, e := idx.WriteTo(&buf)
+			if e != nil {
+				panic(e)
+			}
+			stream := append([]byte(nil), buf.Bytes()...)
+			ops = append(ops, func(c *Case) { c.N(7).Bytes(emptyBM).Bytes(stream).I(n) })
+			t.Stat("vec.write")
+			// soft-deleted ids are gone from the source after WriteTo (it flushes)
+			fresh, _ := p.build()
+			cr := &countingReader{r: bytes.NewReader(append(append([]byte(nil), stream...), 0xAA, 0xBB))}
+			rn, re := fresh.ReadFrom(cr)
+			code := 0
+			if re != nil {
+				code = 1
+			}
+			ops = append(ops, func(c *Case) { c.N(8).Bytes(stream).N(code).I(rn) })
+			t.Stat("vec.reload")
+			if re == nil {
+				idx = fresh // continuation history runs on the reloaded index
+				kept := resident[:0]
+				for _, lv := range resident {
+					if !removed[lv.id] {
+						kept = append(kept, lv)
+					}
+				}
+				resident = kept
+				removed = map[uint32]bool{}
+			}
 			emitDump()
 		}
 		x := r.Intn(100)
@@ -360,4 +396,27 @@ func runVecHistory(r *rand.Rand, p vecParams, o vecHistOpts, t *Trace) *Case {
 		f(c)
 	}
 	return c
+}
+
+type countingReader struct {
+	r io.Reader
+	n int64
+}
+
+func (c *countingReader) Read(p []byte) (int, error) {
+	n, err := c.r.Read(p)
+	c.n += int64(n)
+	return n, err
+}
+
+func emptyBitmapBytes() []byte {
+	// the serialised empty roaring bitmap, obtained from the implementation itself:
+	// an empty flat index stream ends with u32 length + blob
+	idx, _ := comet.NewFlatIndex(1, comet.Euclidean)
+	var buf bytes.Buffer
+	idx.WriteTo(&buf)
+	b := buf.Bytes()
+	// header: 4 magic + 4 ver + 4 dim + 4 len + 2 "l2" + 4 count = 22, then u32 blob length
+	n := int(b[22]) | int(b[23])<<8 | int(b[24])<<16 | int(b[25])<<24
+	return append([]byte(nil), b[26:26+n]...)
 }
